@@ -16,7 +16,9 @@ RULE = ("seeded histories of 8-40 operations (plus setup) over 3-6 registered si
         "types and metadata, 2-4 principals with generated scopes (some expiring mid-history); operations "
         "weighted towards update batches (1-4 elements, 75% valid values, duplicates, unknown ids, metadata "
         "fields) and reads, a DUMP of the whole state after every mutating operation; non-trivial = history "
-        "with at least one accepted and one rejected update element; distinct = distinct operation sequences")
+        "with at least one accepted and one rejected update element; distinct = distinct operation sequences; plus "
+        "scripted near-duplicate writes (a stored float followed by its neighbours 1-3 ulps away, a sub-epsilon step, "
+        "its negation, the same number in another numeric kind; integers likewise) with a read after each")
 TRUSTED = ["extraction: ExtrOcamlBasic only; driver ocaml/model_run.ml",
            "correspondence harness: harness/src/fam_hist.rs (real DataBroker/AuthorizedAccess, hook H3 for housekeeping)",
            "python monitors vp/hist.py (acknowledgement fold, permission oracle of vp/props/c05.py)"]
@@ -64,9 +66,53 @@ def neighbours(lines, rng):
     return []
 
 
+def near_scenario(rng):
+    """writes that are *almost* the stored value: one or a few ulps away, a sub-epsilon step, the same number in
+    another numeric kind - each is a different value (or an ill-typed one) and must be stored (or refused) as such"""
+    from .. import enc as E
+    from . import c02 as V
+    L = [[H.PERM, 0] + E.s(H.ALL_SCOPE)]
+    types = [10, 11, 10, 11, rng.choice([4, 5]), rng.choice([8, 9]), rng.choice([2, 6])]
+    ets = []
+    for i, t in enumerate(types):
+        et = rng.choice([0, 2, 2])
+        ets.append(et)
+        L.append([H.ADD, 0] + E.s("Vehicle.Near%d" % i) + [t, rng.randrange(3), et, 0, 0, 0])
+    L.append([H.DUMP])
+    kind = {10: E.F32, 11: E.F64, 4: E.I32, 5: E.I64, 8: E.U32, 9: E.U64, 2: E.I32, 6: E.U32}
+    bits = {E.F32: V.F, E.F64: V.D}
+
+    def same_number(x, k):
+        """the number x (an int or a python float) as a value of kind k"""
+        if k in bits:
+            return E.val(k, bits[k](float(x)))
+        return E.val(k, int(x))
+
+    for _ in range(rng.randrange(6, 14)):
+        i = rng.randrange(len(types))
+        k = kind[types[i]]
+        fl = rng.choice([1, 1, 1, 2, 3]) if ets[i] == 2 else 1
+        if k in bits:
+            x = rng.choice([0.0, 1.0, 0.5, 5.0, 9.5, 1e-8, -1.0, 1e-30, 100.0])
+            b = bits[k](x)
+            seq = [b, rng.choice([b + 1, max(b - 1, 0), b + 2, b + 3, b, bits[k](x + 1e-8), bits[k](x + 1e-17), bits[k](-x), 1, 0])]
+            vals = [E.val(k, v) for v in seq]
+            if x == int(x) and rng.random() < 0.5:
+                vals.append(same_number(x, rng.choice([E.I32, E.I64, E.U32, E.U64, E.F64 if k == E.F32 else E.F32])))
+        else:
+            x = rng.choice([0, 1, 5, 10])
+            vals = [E.val(k, x), same_number(x, rng.choice([kk for kk in (E.I32, E.I64, E.U32, E.U64, E.F32, E.F64) if kk != k])),
+                    E.val(k, x + 1)]
+        for v in vals:
+            body = [i, fl] + (v if fl & 1 else []) + (v if fl & 2 else [])
+            L += [[H.UPDATE, 0, 1] + body, [H.GET, 0, i], [H.DUMP]]
+    return L
+
+
 class StorePart:
     FAM = 1
-    generate = staticmethod(lambda rng, tier: generate(rng, tier))
+    generate = staticmethod(lambda rng, tier: generate(rng, tier) + [
+        ("near%d" % i, near_scenario(rng)) for i in range(40 if tier == "quick" else 800)])
     monitor = staticmethod(monitor)
     nontrivial = staticmethod(nontrivial)
     histogram = staticmethod(histogram)
